@@ -727,7 +727,7 @@ package rtpconn
 //@   modifies *
 //@
 //@ func handleAction
-//@   props C11 C12
+//@   props C11 C15 C12
 //@   requires nonnil: c != nil && cwf(c)
 //@   requires token-store-free: !held(token.tokens.mu) && !held(group.groups.mu)
 //@   -- context assumptions: the client loop holds no group mutex; a registered group has a description (invariant of the table of groups)
